@@ -333,4 +333,4 @@ Definition quiescent (v : variant) (s : st) : bool :=
   match enabled_internal v s with [] => true | _ => false end.
 
 (* what /repo is now: flipped by the fix: commits for D5, D6, D13 *)
-Definition code_variant : variant := legacy.
+Definition code_variant : variant := repaired.
